@@ -16,7 +16,10 @@ def returning_paths(f, inliner=None, limit=20000, keep_mem=None):
     for p in cfg.acyclic_paths(limit=limit):
         if f["blocks"][p[-1]]["term"]["k"] != "return":
             continue
-        out.append(PathEval(f, p, inliner=inliner, keep_mem=keep_mem))
+        pe = PathEval(f, p, inliner=inliner, keep_mem=keep_mem)
+        if pe.infeasible:
+            continue        # a constant or contradicted condition: no execution takes this path
+        out.append(pe)
     return out
 
 
